@@ -658,7 +658,8 @@ theorem C21_shapes :
     Gen.C21.clientRecognised = true ∧ Gen.C21.chainRejectsEmpty = true ∧ Gen.C21.chainRejectsGate = true ∧
     Gen.C21.proofGateDeclaresOnlyInRequire = true ∧ Gen.C21.proofErrorIsPermissionWithProxyRequired = true ∧
     Gen.C21.chainCodeClass = "AuthFailure" ∧ Gen.C21.classifyClass = "PermissionError" ∧
-    Gen.C21.serializerGuard = "isinstance(exc, falcon.HTTPUnauthorized)" := by
+    Gen.C21.serializerGuard = "isinstance(exc, falcon.HTTPUnauthorized)" ∧
+    Gen.C21.classifyGuard = "isinstance(declared, AuthReason)" := by
   decide
 
 /-- the source's `AuthReason` is exactly the closed set of the specification; values are distinct -/
@@ -675,6 +676,23 @@ theorem C21_status (c : Config) (a : Auth) (ρ : Env) (acc : Option Str) (h : c.
       | .raise (.other _) => .serverError
       | .raise e => .unauthorized (serialize c.hint (some (classify e)) e.str acc) :=
   Aux.respond_eq c a ρ acc h
+
+/-- classification is total and exact whatever the duck-typed `vgi_auth_reason` attribute holds: only an `AuthReason`
+    member is honoured; a plain string (a wire value, a foreign or re-cased code, `""`), a number, any other object, or
+    no attribute at all falls through to `insufficient_scope` (PermissionError) / `unauthorized` — it never escapes the
+    closed set and never raises (with `C21_status`: such a rejection is still the standardized 401) -/
+theorem C21_classify (e : Exc) :
+    classify e = (match e.attr with
+      | .member r => r
+      | _ => if e.isInstance "PermissionError" = true then .scope else .unauthorized) ∧
+    Spec.IsClosedReason (classify e).value := by
+  refine ⟨?_, Aux.value_closed _⟩
+  have h1 : Reason.ofName Gen.C21.classifyThen = .scope := Aux.ofName_consts.1
+  have h2 : Reason.ofName Gen.C21.classifyElse = .unauthorized := Aux.ofName_consts.2.1
+  have h3 : Gen.C21.classifyClass = "PermissionError" := rfl
+  unfold classify Exc.declared
+  rw [h1, h2, h3]
+  cases e.attr <;> rfl
 
 /-- every rejection (`ValueError` / `PermissionError` of any composition) is a 401, and only those are -/
 theorem C21_rejection_is_401 (c : Config) (a : Auth) (ρ : Env) (acc : Option Str) (h : c.auth = some a) :
@@ -1003,7 +1021,7 @@ example :
 /-- an outage behind a passed gate and a rejected alternative is a 503 -/
 example :
     let a : Auth := .requireAll ⟨0, []⟩ (.chain [.leaf 1 [], .leaf 2 []])
-    let ρ : Env := ⟨fun i => if i = 1 then .raise (.valueError none [] "ValueError".toList) else .raise (.unavailable 7 []),
+    let ρ : Env := ⟨fun i => if i = 1 then .raise (.valueError (.text "token_revoked".toList) [] "ValueError".toList) else .raise (.unavailable 7 []),
                     fun _ => .ok⟩
     respond ⟨some a, [], false⟩ ρ none = .unavailable 7 "authentication service unavailable".toList := by
   decide
